@@ -2,4 +2,11 @@
 EXTENDS TcpConn
 KAll == {"answer", "silent", "reject", "panic", "short"}
 KQuick == {"answer", "silent", "panic", "short"}
+KOpt == {"answer", "silent", "panic"}
+KAnswer == {"answer"}
+SAll == SizeClasses
+SSmall == {"small"}
+SSmallHuge == {"small", "huge"}
+OAll == OptKinds
+OPlain == {"plain"}
 =============================================================================
